@@ -221,6 +221,8 @@ class Harness:
                 'arm_text': ARM_TEXT[kind], 'arm_lines': arm_lines(kind), 'repo': REPO, 'target_files': [TARGETS_FILE],
                 'out_dir': cdir, 'sock': self.sock_path, 'pause_bound': 15,
                 'granularity': case.get('granularity', 'line')}
+        if case.get('raise_delay'):
+            plan['raise_delay'] = case['raise_delay']
         self._write_plan(plan)
         kw = {'init_state': case.get('init_state', 0)}
         if kind == 'remote':
@@ -233,7 +235,7 @@ class Harness:
             args = (mpath,)
         else:
             target = T.TARGETS[case['ending']]
-            args = (mpath, 99 if case.get('us_none') else 98 if case.get('us_zero') else case.get('loop', 2))
+            args = (mpath, 99 if case.get('us_none') else 98 if case.get('us_zero') else 97 if case.get('us_slow') else case.get('loop', 2))
         st = None
         ffault = fault_is_frontend = case.get('fault') == 'fpause'
         if ffault:
@@ -386,7 +388,7 @@ class Harness:
 
             def _term():
                 try:
-                    box['r'] = w.terminate(timeout=None)
+                    box['r'] = w.terminate(timeout=case.get('idle_timeout'))
                 except BaseException as e:  # noqa
                     box['e'] = type(e).__name__
             th = threading.Thread(target=_term, daemon=True)
@@ -454,6 +456,8 @@ class Harness:
             except BaseException:  # noqa
                 pass
         obs['dead_observed'] = 'T' if dead else 'F'
+        # the state the parent sees at the very moment the worker is reported dead (later reads may find it synchronised by then)
+        early_us = _us_end(w, _marks(mpath), case) if (dead and case.get('stateful')) else None
         reads = []
         if dead:
             for i in range(3):
@@ -480,7 +484,7 @@ class Harness:
         marks = _marks(mpath)
         obs['fin_done'] = 'T' if 'fin_done' in marks else 'F'
         obs['fin_enter'] = 'T' if 'fin_enter' in marks else 'F'
-        obs['us_end'] = _us_end(w, marks, case)
+        obs['us_end'] = early_us if early_us not in (None, 'last') else _us_end(w, marks, case)
         obs['setter'] = _setter(w)
         obs['restart_from'] = 'na'
         if early_stream is not None:
@@ -707,6 +711,8 @@ def _us_end(w, marks, case):
         v = w.user_state
     except BaseException as e:  # noqa
         return 'raised:' + type(e).__name__
+    if type(v).__name__ == 'SlowState':
+        v = v.k
     init = case.get('init_state', 0)
     us = [m for m in marks if m.startswith('us_')]
     if not us:
